@@ -20,16 +20,17 @@ GEOMS = ["plain", "weighted-scalar", "weighted-array", "extruded-scalar", "extru
 PAYLOADS = ["scalar", "vector", "series", "vector-series"]
 
 
-def make_geometry(ctx, kind, shape, tag=""):
-    """Returns (geometry, effective weight array or scalar, voxel volume)."""
+def make_geometry(ctx, kind, shape, tag="", scale=1.0):
+    """Returns (geometry, effective weight array or scalar, voxel volume).  `scale` only moves the range of the concrete
+    companion samples (e.g. millimetre-sized geometries); the symbolic obligation is over all positive sizes anyway."""
     dim = len(shape)
-    d = ctx.reals(f"d{tag}", dim, pos=True, sample=(0.2, 9.0))
+    d = ctx.reals(f"d{tag}", dim, pos=True, sample=(0.2 * scale, 9.0 * scale))
     vol = 1
     for k in range(dim):
         vol = vol * (d[k] / shape[k])
     kw = dict(space_dim=dim, num_voxels=tuple(shape), dimensions=list(d))
-    sc = lambda n: ctx.real(n + tag, pos=True, sample=(0.1, 3.0))
-    ar = lambda n: ctx.array(n + tag, shape, pos=True, sample=(0.1, 3.0))
+    sc = lambda n: ctx.real(n + tag, pos=True, sample=(0.1 * scale, 3.0 * scale))
+    ar = lambda n: ctx.array(n + tag, shape, pos=True, sample=(0.1 * scale, 3.0 * scale))
     im = lambda n: darsia.Image(ar(n), space_dim=dim, scalar=True, dimensions=list(d))
     if kind == "plain":
         return darsia.Geometry(**kw), 1, vol
@@ -200,11 +201,12 @@ def c03_history(ctx, geom, history):
         ctx.ensure(f"after history [{history}]: integrate({letter} data) equals a fresh object's result", eq(used.integrate(x), fresh.integrate(x)))
 
 
-@ob("C03.normalize", cases=product_cases(geom=("plain", "weighted-array", "extporous-ia"), payload=("scalar", "vector")), mods=MODS, funcs=FUNCS, stubs=STUBS, samples=(1, 3),
+@ob("C03.normalize", cases=product_cases(geom=("plain", "weighted-array", "extporous-ia"), payload=("scalar", "vector"), scale=(1.0, 1e-6)),
+    mods=MODS, funcs=FUNCS, stubs=STUBS, samples=(2, 4), tol=(1e-8, 1e-40),
     cite="normalising an image against a reference makes their integrals equal")
-def c03_normalize(ctx, geom, payload):
+def c03_normalize(ctx, geom, payload, scale):
     shape = (2, 2)
-    g, w, vol = make_geometry(ctx, geom, shape)
+    g, w, vol = make_geometry(ctx, geom, shape, scale=scale)
     img, arr = make_data(ctx, shape, payload, "x", True)
     ref, rarr = make_data(ctx, shape, payload, "r", True)
     i_img = spec_integral(arr, w, vol, 2)
@@ -220,7 +222,7 @@ def c03_normalize(ctx, geom, payload):
     ctx.ensure("normalize(img, ref).img == img.img * ratio  (per component)", and_(eq(out.img, want), eq(out2.img, want)))
     ctx.ensure("img and ref untouched, result is a new image", img.img is arr and ref.img is rarr and out is not img)
     ctx.ensure("result keeps the image's metadata", and_(eq(list(out.origin), list(img.origin)), eq(list(out.dimensions), list(img.dimensions)), out.scalar == img.scalar))
-    if geom == "plain" and payload == "scalar":
+    if geom == "plain" and payload == "scalar" and scale == 1.0:
         # direct statement (small enough for the solver); in general it follows from step 1 + linearity (C03.sum) + lemma C03.ratio
         ctx.ensure("integrate(normalize(img, ref)) == integrate(ref)", eq(g.integrate(out), i_ref))
 
